@@ -18,6 +18,9 @@ import (
 // defined, the evaluator (and Sem.v) must finish without error and every
 // declared global must have exec_l's value; whenever exec_l is undefined with
 // ample fuel, the evaluator must have failed at run time.
+// Stream sem-tie-locals does the same for lx_l, the semantics with block
+// scopes of C16_compile_correct_locals_partial, on programs of lpfrag.
+// Both are differential correspondences, not theorems.
 
 // ---------- a generator for exactly the fragment psfrag ----------
 
@@ -28,12 +31,15 @@ type fragGen struct {
 	strs     []string
 	bools    []string
 	arrs     []string
+	maps     []string // {}num variables with the keys a and b
 	ctrs     []string // while counters (pre-declared)
 	lvs      []string // loop variables in scope (read only), with their type
 	lvTyp    map[string]string
 	nid      int
 	errs     bool // allow run-time errors (index out of range, zero step)
 	stmtsMax int
+	locals   bool            // lpfrag: declarations and loop variables inside blocks too
+	curDecl  map[string]bool // names declared in the block being generated
 }
 
 func (g *fragGen) line(ind int, s string) {
@@ -64,7 +70,7 @@ func (g *fragGen) idx(n int) string {
 }
 
 func (g *fragGen) num(d int) string {
-	k := g.rng.Intn(12)
+	k := g.rng.Intn(13)
 	if d <= 0 {
 		k = g.rng.Intn(4)
 	}
@@ -89,10 +95,52 @@ func (g *fragGen) num(d int) string {
 		return "(" + g.num(d-1) + " " + g.pick([]string{"/", "%"}) + " " + strconv.Itoa(1+g.rng.Intn(4)) + ")"
 	case k < 10:
 		return "(-" + g.pick(g.nums) + ")"
-	default:
+	case k < 11:
 		// arrays are kept at 3 elements by the generator
+		switch g.rng.Intn(6) {
+		case 0: // concatenation: 4 elements
+			return "(" + g.pick(g.arrs) + " + [" + g.numLit() + "])[" + g.idx(4) + "]"
+		case 1: // a slice: 2 elements
+			return g.pick(g.arrs) + g.pick([]string{"[1:]", "[:2]", "[-2:]", "[1:3]"}) + "[" + g.idx(2) + "]"
+		case 2: // repetition: 4 elements
+			return "([" + g.numLit() + " " + g.numLit() + "] * " + g.repCount("2") + ")[" + g.idx(4) + "]"
+		}
 		return g.pick(g.arrs) + "[" + g.idx(3) + "]"
+	default:
+		// maps are kept at the keys a and b by the generator
+		if g.rng.Intn(5) == 0 {
+			return g.mapLit() + "[" + g.key() + "]"
+		}
+		return g.pick(g.maps) + "[" + g.key() + "]"
 	}
+}
+
+func (g *fragGen) repCount(n string) string {
+	if g.errs && g.rng.Intn(8) == 0 {
+		return g.pick([]string{"-1", "1.5"}) // ErrBadRepetition
+	}
+	return n
+}
+
+func (g *fragGen) key() string {
+	if g.errs && g.rng.Intn(10) == 0 {
+		return `"zz"` // no such key
+	}
+	return g.pick([]string{`"a"`, `"b"`})
+}
+
+func (g *fragGen) mapLit() string {
+	if g.rng.Intn(2) == 0 {
+		return "{b:" + g.num(1) + " a:" + g.num(0) + "}"
+	}
+	return "{a:" + g.num(1) + " b:" + g.num(0) + "}"
+}
+
+func (g *fragGen) mapv() string {
+	if g.rng.Intn(3) == 0 {
+		return g.pick(g.maps)
+	}
+	return g.mapLit()
 }
 
 func (g *fragGen) strLit() string {
@@ -100,7 +148,7 @@ func (g *fragGen) strLit() string {
 }
 
 func (g *fragGen) str(d int) string {
-	k := g.rng.Intn(8)
+	k := g.rng.Intn(9)
 	if d <= 0 {
 		k = g.rng.Intn(4)
 	}
@@ -120,14 +168,19 @@ func (g *fragGen) str(d int) string {
 		return g.pick(g.strs)
 	case k < 7:
 		return "(" + g.str(d-1) + " + " + g.str(d-1) + ")"
-	default:
+	case k < 8:
 		// index into a literal of known length (strings grow, their length is not tracked)
 		return `"héllo"[` + g.idx(5) + "]"
+	default:
+		if g.errs && g.rng.Intn(6) == 0 {
+			return `"héllo"` + g.pick([]string{"[3:1]", "[2:9]", "[-7:]"}) // ErrSlice / ErrBounds
+		}
+		return `"héllo"` + g.pick([]string{"[1:3]", "[:2]", "[2:]", "[-3:-1]", "[4:4]", "[:]"})
 	}
 }
 
 func (g *fragGen) boolean(d int) string {
-	k := g.rng.Intn(9)
+	k := g.rng.Intn(10)
 	if d <= 0 {
 		k = g.rng.Intn(3)
 	}
@@ -142,20 +195,37 @@ func (g *fragGen) boolean(d int) string {
 		return "(" + g.str(d-1) + " " + g.pick([]string{"<", "==", "!=", ">="}) + " " + g.str(d-1) + ")"
 	case k < 8:
 		return "(" + g.boolean(d-1) + " " + g.pick([]string{"==", "!="}) + " " + g.boolean(d-1) + ")"
+	case k < 9: // structural equality
+		if g.rng.Intn(2) == 0 {
+			return "(" + g.mapv() + " " + g.pick([]string{"==", "!="}) + " " + g.mapv() + ")"
+		}
+		return "(" + g.arr() + " " + g.pick([]string{"==", "!="}) + " " + g.arr() + ")"
 	default:
 		return "(!" + g.boolean(d-1) + ")"
 	}
 }
 
 func (g *fragGen) arr() string {
-	if g.rng.Intn(3) == 0 {
+	switch g.rng.Intn(9) {
+	case 0, 1, 2:
 		return g.pick(g.arrs)
+	case 3: // 1 + 2 elements
+		return "(" + g.pick(g.arrs) + "[:1] + " + g.pick(g.arrs) + "[1:])"
+	case 4: // 3 × 1 element
+		return "([" + g.num(1) + "] * " + g.repCount("3") + ")"
+	case 5: // 2 + 1 elements
+		if g.errs && g.rng.Intn(6) == 0 {
+			return "(" + g.pick(g.arrs) + "[2:1] + [0])" // ErrSlice
+		}
+		return "(" + g.pick(g.arrs) + "[1:] + [" + g.num(0) + "])"
 	}
 	return "[" + g.num(1) + " " + g.num(1) + " " + g.num(0) + "]"
 }
 
 func (g *fragGen) assign(ind int) {
-	switch g.rng.Intn(8) {
+	switch g.rng.Intn(9) {
+	case 8:
+		g.line(ind, g.pick(g.maps)+" = "+g.mapv())
 	case 0, 1, 2:
 		g.line(ind, g.pick(g.nums)+" = "+g.num(2))
 	case 3, 4:
@@ -186,10 +256,32 @@ func (g *fragGen) rangeHdr() string {
 }
 
 func (g *fragGen) block(ind, depth int, inLoop, top bool) {
+	// a block is a scope: what it declares is gone at its end
+	ln, ls, lb, la, lm, cd := len(g.nums), len(g.strs), len(g.bools), len(g.arrs), len(g.maps), g.curDecl
+	g.curDecl = map[string]bool{}
 	n := 1 + g.rng.Intn(3)
 	for i := 0; i < n; i++ {
 		g.stmt(ind, depth, inLoop, top)
 	}
+	g.nums, g.strs, g.bools, g.arrs, g.maps, g.curDecl = g.nums[:ln], g.strs[:ls], g.bools[:lb], g.arrs[:la], g.maps[:lm], cd
+}
+
+// declName: a fresh name, or (inside a block, sometimes) the name of a visible
+// variable of the same type declared in an outer scope: a shadowing declaration
+func (g *fragGen) declName(same []string) string {
+	if g.locals && g.curDecl != nil && g.rng.Intn(3) == 0 {
+		v := g.pick(same)
+		if !g.curDecl[v] {
+			g.curDecl[v] = true
+			return v
+		}
+	}
+	g.nid++
+	v := fmt.Sprintf("d%d", g.nid)
+	if g.curDecl != nil {
+		g.curDecl[v] = true
+	}
+	return v
 }
 
 func (g *fragGen) stmt(ind, depth int, inLoop, top bool) {
@@ -234,39 +326,69 @@ func (g *fragGen) stmt(ind, depth int, inLoop, top bool) {
 		g.block(ind+1, depth+1, true, false)
 		g.line(ind, "end")
 	case k < 16: // for range without loop variable
-		switch g.rng.Intn(4) {
+		switch g.rng.Intn(5) {
 		case 0:
 			g.line(ind, "for range "+g.arr())
 		case 1:
 			g.line(ind, "for range "+g.str(1))
+		case 4:
+			g.line(ind, "for range "+g.mapv())
 		default:
 			g.line(ind, "for range "+g.rangeHdr())
 		}
 		g.block(ind+1, depth+1, true, false)
 		g.line(ind, "end")
 	default:
-		if !top {
+		if !top && !g.locals {
 			g.assign(ind)
 			return
 		}
-		// top level only: a declaration or a loop with a loop variable (a global for the compiler)
+		// a declaration or a loop with a loop variable: at top level a global for the
+		// compiler, inside a block (locals mode) a local of the block's scope
 		switch g.rng.Intn(4) {
 		case 0:
-			g.nid++
-			v := fmt.Sprintf("d%d", g.nid)
-			switch g.rng.Intn(4) {
+			// the parser rejects variables that are never read: a block-local one is read right away
+			switch g.rng.Intn(5) {
+			case 4:
+				e := g.mapv()
+				v := g.declName(g.maps)
+				g.line(ind, v+" := "+e)
+				g.maps = append(g.maps, v)
+				if !top {
+					g.line(ind, "n1 = n1 + "+v+`["a"]`)
+				}
 			case 0:
-				g.line(ind, v+" := "+g.num(2))
+				e := g.num(2)
+				v := g.declName(g.nums)
+				g.line(ind, v+" := "+e)
 				g.nums = append(g.nums, v)
+				if !top {
+					g.line(ind, "n1 = n1 + "+v)
+				}
 			case 1:
-				g.line(ind, v+" := "+g.str(2))
+				e := g.str(2)
+				v := g.declName(g.strs)
+				g.line(ind, v+" := "+e)
 				g.strs = append(g.strs, v)
+				if !top {
+					g.line(ind, "s1 = s1 + "+v)
+				}
 			case 2:
-				g.line(ind, v+" := "+g.boolean(2))
+				e := g.boolean(2)
+				v := g.declName(g.bools)
+				g.line(ind, v+" := "+e)
 				g.bools = append(g.bools, v)
+				if !top {
+					g.line(ind, "b0 = b0 == "+v)
+				}
 			default:
-				g.line(ind, v+" := "+g.arr())
+				e := g.arr()
+				v := g.declName(g.arrs)
+				g.line(ind, v+" := "+e)
 				g.arrs = append(g.arrs, v)
+				if !top {
+					g.line(ind, "n1 = n1 + "+v+"[0]")
+				}
 			}
 		case 1, 2:
 			g.nid++
@@ -281,7 +403,10 @@ func (g *fragGen) stmt(ind, depth int, inLoop, top bool) {
 		default:
 			g.nid++
 			lv := fmt.Sprintf("e%d", g.nid)
-			if g.rng.Intn(2) == 0 {
+			if r := g.rng.Intn(5); r == 4 {
+				g.line(ind, "for "+lv+" := range "+g.mapv())
+				g.lvTyp[lv] = "string"
+			} else if r < 2 {
 				g.line(ind, "for "+lv+" := range "+g.arr())
 				g.lvTyp[lv] = "num"
 			} else {
@@ -301,22 +426,25 @@ func (g *fragGen) stmt(ind, depth int, inLoop, top bool) {
 	}
 }
 
-func genFragProgram(rng *rand.Rand, errs bool) string {
-	g := &fragGen{rng: rng, errs: errs, lvTyp: map[string]string{}, stmtsMax: 6 + rng.Intn(14)}
+// genFragProgram: a program of psfrag; with locals, of lpfrag (declarations and
+// loop variables inside blocks, shadowing declarations)
+func genFragProgram(rng *rand.Rand, errs, locals bool) string {
+	g := &fragGen{rng: rng, errs: errs, locals: locals, lvTyp: map[string]string{}, stmtsMax: 6 + rng.Intn(14)}
 	g.line(0, "n0 := "+g.numLit())
 	g.line(0, "n1 := "+g.numLit())
 	g.line(0, `s0 := "ab"`)
 	g.line(0, `s1 := ""`)
 	g.line(0, "b0 := true")
 	g.line(0, "a0 := [1 2 3]")
-	g.nums, g.strs, g.bools, g.arrs = []string{"n0", "n1"}, []string{"s0", "s1"}, []string{"b0"}, []string{"a0"}
+	g.line(0, "m0 := {a:1 b:2}")
+	g.nums, g.strs, g.bools, g.arrs, g.maps = []string{"n0", "n1"}, []string{"s0", "s1"}, []string{"b0"}, []string{"a0"}, []string{"m0"}
 	for i := 0; i < 4; i++ {
 		c := fmt.Sprintf("w%d", i)
 		g.line(0, c+" := 0")
 		g.ctrs = append(g.ctrs, c)
 	}
 	// the parser rejects variables that are never read
-	g.line(0, "n0 = n0 + n1 + w0 + w1 + w2 + w3 + a0[0]")
+	g.line(0, `n0 = n0 + n1 + w0 + w1 + w2 + w3 + a0[0] + m0["a"]`)
 	g.line(0, "s0 = s0 + s1")
 	g.line(0, "b0 = b0 == b0")
 	n := 3 + rng.Intn(6)
@@ -334,6 +462,9 @@ func genFragProgram(rng *rand.Rand, errs bool) string {
 	}
 	for _, v := range g.arrs[1:] {
 		g.line(0, "n1 = n1 + "+v+"[0]")
+	}
+	for _, v := range g.maps[1:] {
+		g.line(0, "n1 = n1 + "+v+`["a"]`)
 	}
 	return g.b.String()
 }
@@ -404,45 +535,53 @@ func semGlobalsCanon(dump string) (map[string]string, error) {
 
 // ---------- one case ----------
 
-func c16SemTie(src string, r *Result, execModel, semModel *Model) {
-	in := map[string]any{"program": src, "stream": "sem-tie"}
+// stream "sem-tie": exec_l on psfrag; stream "sem-tie-locals": lx_l (block scopes) on lpfrag
+func c16SemTie(stream, src string, r *Result, execModel, semModel *Model) {
+	in := map[string]any{"program": src, "stream": stream}
+	tag, semName, fragName := "exec", "exec_l", "psfrag"
+	if stream == "sem-tie-locals" {
+		tag, semName, fragName = "lexec", "lx_l", "lpfrag"
+	}
 	c := c17Compile(src)
 	if c.ParseErr != "" {
-		r.Dist("sem-tie:generator-parse-error")
-		if r.Distribution["sem-tie:generator-parse-error"] <= 3 {
-			r.Note("sem-tie: generated program rejected by the parser (%s): %q", c.ParseErr, src)
+		r.Dist(stream + ":generator-parse-error")
+		if r.Distribution[stream+":generator-parse-error"] <= 3 {
+			r.Note(stream+": generated program rejected by the parser (%s): %q", c.ParseErr, src)
 		}
 		return
 	}
-	ans, err := execModel.AskT("(exec 200000 "+astProgram(c.prog)+")", 20*time.Second)
+	ans, err := execModel.AskT("("+tag+" 200000 "+astProgram(c.prog)+")", 20*time.Second)
 	if err != nil {
 		if err == ErrModelTimeout {
-			r.Dist("sem-tie:model-timeout")
+			r.Dist(stream + ":model-timeout")
+			if r.Distribution[stream+":model-timeout"] <= 2 {
+				r.Note("%s: the extracted semantics did not answer within 20 s (skipped): %q", stream, src)
+			}
 			return
 		}
-		r.Violate(Violation{Kind: "correspondence", Key: "sem-tie:model-crash", Detail: err.Error(), Input: in})
+		r.Violate(Violation{Kind: "correspondence", Key: stream + ":model-crash", Detail: err.Error(), Input: in})
 		return
 	}
 	mx, err := ParseSX(ans)
 	if err != nil || mx.Kind != "lst" || len(mx.L) < 1 {
-		r.Violate(Violation{Kind: "correspondence", Key: "sem-tie:model-output", Detail: ans, Input: in})
+		r.Violate(Violation{Kind: "correspondence", Key: stream + ":model-output", Detail: ans, Input: in})
 		return
 	}
 	class := mx.L[0].S
 	if class == "outside" {
 		// the generator left psfrag: a harness defect, not a property violation — but never silent
-		r.Violate(Violation{Kind: "correspondence", Key: "sem-tie:generator-outside-fragment",
-			Detail: "the fragment generator produced a program outside psfrag", Input: in})
+		r.Violate(Violation{Kind: "correspondence", Key: stream + ":generator-outside-fragment",
+			Detail: "the fragment generator produced a program outside " + fragName, Input: in})
 		return
 	}
 	d := SemCompare(semModel, src, SemOpts{StopAt: -1, YieldBudget: 2_000_000, Fuel: 200000}, false)
 	if d.Skipped == "parse-error" || d.Skipped == "budget" || len(d.Impl.Phases) == 0 {
-		r.Dist("sem-tie:skipped:" + d.Skipped)
+		r.Dist(stream + ":skipped:" + d.Skipped)
 		return
 	}
 	impl := d.Impl.Phases[0]
 	r.Count(src, strings.Contains(src, "for ") || strings.Contains(src, "while "))
-	r.Dist("sem-tie:exec-" + class + "/eval-" + impl.Class)
+	r.Dist(stream + ":exec-" + class + "/eval-" + impl.Class)
 	declared := map[string]bool{}
 	for _, st := range c.prog.Statements {
 		if ds, ok := st.(*parser.InferredDeclStmt); ok {
@@ -451,8 +590,8 @@ func c16SemTie(src string, r *Result, execModel, semModel *Model) {
 	}
 	if class == "undefined" {
 		if impl.Class == "ok" {
-			r.Violate(Violation{Kind: "correspondence", Key: "sem-tie:undefined-but-evaluator-ok",
-				Detail: "exec_l (CompileSem.v) is undefined with fuel 200000 on a program the evaluator finishes without error",
+			r.Violate(Violation{Kind: "correspondence", Key: stream + ":undefined-but-evaluator-ok",
+				Detail: semName + " (CompileSem.v) is undefined with fuel 200000 on a program the evaluator finishes without error",
 				Input:  in, Impl: impl.Class, Model: ans})
 		} else {
 			r.Validated++
@@ -461,8 +600,8 @@ func c16SemTie(src string, r *Result, execModel, semModel *Model) {
 	}
 	// exec_l is defined: the evaluator must finish without error, with the same globals
 	if impl.Class != "ok" {
-		r.Violate(Violation{Kind: "correspondence", Key: "sem-tie:defined-but-evaluator-" + strings.SplitN(impl.Class, ":", 2)[0],
-			Detail: "exec_l (CompileSem.v) is defined but the evaluator ended with " + impl.Class, Input: in, Impl: impl.Class, Model: ans})
+		r.Violate(Violation{Kind: "correspondence", Key: stream + ":defined-but-evaluator-" + strings.SplitN(impl.Class, ":", 2)[0],
+			Detail: semName + " (CompileSem.v) is defined but the evaluator ended with " + impl.Class, Input: in, Impl: impl.Class, Model: ans})
 		return
 	}
 	eg := map[string]string{}
@@ -472,13 +611,13 @@ func c16SemTie(src string, r *Result, execModel, semModel *Model) {
 	cmp := func(side, dump string) bool {
 		gs, err := semGlobalsCanon(dump)
 		if err != nil {
-			r.Violate(Violation{Kind: "correspondence", Key: "sem-tie:dump-unparsable", Detail: err.Error(), Input: in})
+			r.Violate(Violation{Kind: "correspondence", Key: stream + ":dump-unparsable", Detail: err.Error(), Input: in})
 			return false
 		}
 		for name := range declared {
 			if gs[name] != eg[name] {
-				r.Violate(Violation{Kind: "correspondence", Key: "sem-tie:exec-vs-" + side,
-					Detail: fmt.Sprintf("global %s: exec_l (CompileSem.v) has %s, the %s has %s", name, eg[name], side, gs[name]),
+				r.Violate(Violation{Kind: "correspondence", Key: stream + ":exec-vs-" + side,
+					Detail: fmt.Sprintf("global %s: %s (CompileSem.v) has %s, the %s has %s", name, semName, eg[name], side, gs[name]),
 					Input:  in, Impl: gs[name], Model: eg[name]})
 				return false
 			}
@@ -491,14 +630,122 @@ func c16SemTie(src string, r *Result, execModel, semModel *Model) {
 	switch {
 	case d.Diff != "":
 		// Sem.v and the evaluator differ: reported by the properties that own that correspondence; noted here
-		r.Dist("sem-tie:semmodel-differs-from-evaluator")
+		r.Dist(stream + ":semmodel-differs-from-evaluator")
 	case d.Skipped != "":
-		r.Dist("sem-tie:semmodel-skipped:" + strings.SplitN(d.Skipped, ":", 2)[0])
+		r.Dist(stream + ":semmodel-skipped:" + strings.SplitN(d.Skipped, ":", 2)[0])
 	case len(d.Model) > 0:
 		if !cmp("evaluator-model", d.Model[0].Globals) {
 			return
 		}
-		r.Dist("sem-tie:semmodel-compared")
+		r.Dist(stream + ":semmodel-compared")
+	}
+	r.Validated++
+}
+
+// ---------- the side conditions of the whole-program theorems ----------
+
+// hasElementStore: an assignment whose target is an index expression, anywhere
+func hasElementStore(n parser.Node) bool {
+	found := false
+	var blk func(b *parser.BlockStatement)
+	var st func(n parser.Node)
+	blk = func(b *parser.BlockStatement) {
+		if b == nil {
+			return
+		}
+		for _, x := range b.Statements {
+			st(x)
+		}
+	}
+	st = func(n parser.Node) {
+		switch x := n.(type) {
+		case *parser.Program:
+			for _, y := range x.Statements {
+				st(y)
+			}
+		case *parser.AssignmentStmt:
+			if _, ok := x.Target.(*parser.IndexExpression); ok {
+				found = true
+			}
+		case *parser.IfStmt:
+			if x.IfBlock != nil {
+				blk(x.IfBlock.Block)
+			}
+			for _, e := range x.ElseIfBlocks {
+				blk(e.Block)
+			}
+			blk(x.Else)
+		case *parser.WhileStmt:
+			blk(x.Block)
+		case *parser.ForStmt:
+			blk(x.Block)
+		case *parser.BlockStatement:
+			blk(x)
+		}
+	}
+	st(n)
+	return found
+}
+
+// c16Shape: C17_compile_wf_all / C16_compile_correct_plain_partial are stated under
+// wplain_slist (no key-twice map literal, no bare block) and nb_slist (no break
+// outside a loop), called guaranteed by the parser: checked here on the AST of
+// every program the real parser accepts.  And for a program the real compiler
+// accepts: no element store (read off the Go AST) must mean plain, and plain
+// must mean lfrag (compile_covered on the exported AST).
+func c16Shape(src string, r *Result, em *Model) {
+	in := map[string]any{"program": src, "stream": "shape"}
+	c := c17Compile(src)
+	if c.ParseErr != "" || c.prog == nil {
+		r.Dist("shape:parse-error")
+		return
+	}
+	ans, err := em.AskT("(shape "+astProgram(c.prog)+")", 20*time.Second)
+	if err != nil {
+		if err == ErrModelTimeout {
+			r.Dist("shape:model-timeout")
+			return
+		}
+		r.Violate(Violation{Kind: "correspondence", Key: "shape:model-crash", Detail: err.Error(), Input: in})
+		return
+	}
+	x, err := ParseSX(ans)
+	if err != nil || x.Kind != "lst" || len(x.L) != 5 {
+		r.Violate(Violation{Kind: "correspondence", Key: "shape:model-output", Detail: ans, Input: in})
+		return
+	}
+	wplain, nb, plain, lfrag := x.L[1].S == "t", x.L[2].S == "t", x.L[3].S == "t", x.L[4].S == "t"
+	r.Count(src, true)
+	if !wplain {
+		r.Violate(Violation{Kind: "correspondence", Key: "shape:parsed-program-not-wplain",
+			Detail: "the parser accepted a program whose AST is not wplain_slist (a map literal with len(Pairs) <> len(Order), or a block as a statement)", Input: in, Model: ans})
+		return
+	}
+	if !nb {
+		r.Violate(Violation{Kind: "correspondence", Key: "shape:parsed-program-break-outside-loop",
+			Detail: "the parser accepted a program with a break outside a loop (nb_slist false)", Input: in, Model: ans})
+		return
+	}
+	if c.CompileErr != "" {
+		r.Dist("shape:parsed/compile-error")
+		r.Validated++
+		return
+	}
+	store := hasElementStore(c.prog)
+	if plain == store {
+		r.Violate(Violation{Kind: "correspondence", Key: "shape:plain-vs-element-store",
+			Detail: fmt.Sprintf("plain_slist = %v but the Go AST has an element store: %v", plain, store), Input: in, Model: ans})
+		return
+	}
+	if plain && !lfrag {
+		r.Violate(Violation{Kind: "correspondence", Key: "shape:accepted-plain-not-in-fragment",
+			Detail: "the real compiler accepts the program, it is plain, and lfrag_slist is false (contradicts compile_covered on the exported AST)", Input: in, Model: ans})
+		return
+	}
+	if plain {
+		r.Dist("shape:compiled/plain")
+	} else {
+		r.Dist("shape:compiled/element-store")
 	}
 	r.Validated++
 }
